@@ -1973,7 +1973,7 @@ static int32 parseSSLHandshake(ssl_t *ssl, char *inbuf, uint32 len)
 
 #ifdef USE_DTLS
     uint32 fragLen;
-    int32 msn, fragOffset, j;
+    int32 msn, fragOffset, j, k;
 # ifdef USE_CLIENT_SIDE_SSL
     int32 hvreqMinVer, hvreqMajVer;
 # endif
@@ -2534,6 +2534,21 @@ hsStateDetermined:
                     psTraceIntDtls("Fragment outside range [0...%d]: ignored\n",
                                    (int) hsLen);
                     return MATRIXSSL_ERROR;
+                }
+/*
+                The message is complete when the lengths of the stored
+                fragments add up to hsLen, so a fragment that overlaps a
+                stored one is dropped like a duplicate.
+*/
+                for (k = 0; k < j; k++)
+                {
+                    if (fragOffset < ssl->fragHeaders[k].offset +
+                            ssl->fragHeaders[k].fragLen &&
+                        ssl->fragHeaders[k].offset <
+                            fragOffset + (int32) fragLen)
+                    {
+                        return MATRIXSSL_SUCCESS;
+                    }
                 }
 
 /*
